@@ -1,6 +1,7 @@
 package main
 
 import (
+	"time"
 	"fmt"
 	"go/ast"
 	"go/constant"
@@ -105,6 +106,7 @@ type FuncVC struct {
 	specClosure *ssa.Function // specialisation: the function-typed parameter is this closure
 	specClosureVal *ClosureVal
 	curSelf *Term // the function value being called through a function-type contract
+	started time.Time
 }
 
 type axiomT struct {
